@@ -7,6 +7,7 @@
 package main
 
 import (
+	"bufio"
 	"bytes"
 	"compress/zlib"
 	"context"
@@ -17,7 +18,9 @@ import (
 	"io"
 	"net"
 	"os"
+	"os/exec"
 	"reflect"
+	"runtime"
 	"strconv"
 	"strings"
 	"sync"
@@ -1678,14 +1681,104 @@ func minimalBodies() (map[int32][]byte, map[int32]bool) {
 	return b, skip
 }
 
+// the random bodies of the direct scenario run in a CHILD process: a body that makes a reader allocate a
+// peer-declared length up front kills the process with `fatal error: out of memory`, which no recover
+// catches; the parent reports the death of the child as a failure of class C19.play.all-ids (fatal)
+const childEnv = "VERIF_C19_CHILD"
+
+func runOneDirect(id int32, body []byte) (pan string) {
+	c := newFullClient()
+	qr := queue.NewLinkedQueue[pk.Packet]()
+	qr.Push(pk.Packet{ID: id, Data: append([]byte{}, body...)})
+	qr.Close()
+	c.Conn = bot.VerifC19NewConnOn(mcnet.WrapConn(&scriptConn{}), qr, queue.NewLinkedQueue[pk.Packet](), errEnd)
+	return hx.Try(func() { _ = c.HandleGame() })
+}
+
+func randomBodies(r *hx.Rng) [][]byte {
+	b := [][]byte{r.Bytes(40), r.Bytes(7), r.Bytes(200)}
+	// a plausible small prefix followed by a large declared count
+	b = append(b, append([]byte{byte(r.Intn(4)), byte(r.Intn(4))}, append(refVarIntBytes(1<<30+r.Intn(1<<30)), r.Bytes(20)...)...))
+	return b
+}
+
+// child: prints one line before every case so that the parent knows which input was running
+func childAllIDs() {
+	seed, _ := strconv.ParseUint(os.Getenv(childEnv), 10, 64)
+	r := hx.NewRng(seed)
+	// watchdog: a run that maps gigabytes is a failure even where the machine could serve it
+	go func() {
+		var ms runtime.MemStats
+		for {
+			runtime.ReadMemStats(&ms)
+			if ms.Sys > 6<<30 {
+				fmt.Println("MEM", ms.Sys)
+				os.Exit(3)
+			}
+			time.Sleep(20 * time.Millisecond)
+		}
+	}()
+	guard := int32(packetid.ClientboundPacketIDGuard)
+	w := bufio.NewWriter(os.Stdout)
+	for id := int32(1); id < guard; id++ {
+		for _, body := range randomBodies(r) {
+			fmt.Fprintf(w, "RUN %d %s\n", id, hx.Hex(body))
+			w.Flush()
+			if p := runOneDirect(id, body); p != "" {
+				fmt.Fprintf(w, "PANIC %d %s %s\n", id, hx.Hex(body), strings.ReplaceAll(p, "\n", " "))
+			}
+		}
+	}
+	fmt.Fprintln(w, "DONE")
+	w.Flush()
+}
+
+func allIDsRandom(o *hx.Out) {
+	seed := o.R.Next()
+	cmd := exec.Command(os.Args[0])
+	cmd.Env = append(os.Environ(), fmt.Sprintf("%s=%d", childEnv, seed), "GORACE=halt_on_error=0")
+	var out bytes.Buffer
+	cmd.Stdout = &out
+	var errb bytes.Buffer
+	cmd.Stderr = &errb
+	done := make(chan error, 1)
+	if err := cmd.Start(); err != nil {
+		o.Fail("C19.harness", "cannot start the all-ids child: %v", err)
+		return
+	}
+	go func() { done <- cmd.Wait() }()
+	var werr error
+	select {
+	case werr = <-done:
+	case <-time.After(120 * time.Second):
+		cmd.Process.Kill()
+		werr = errors.New("timeout")
+	}
+	lines := strings.Split(strings.TrimSpace(out.String()), "\n")
+	last, n := "", 0
+	for _, l := range lines {
+		switch {
+		case strings.HasPrefix(l, "RUN "):
+			last = l
+			n++
+		case strings.HasPrefix(l, "PANIC "):
+			f := strings.SplitN(l, " ", 4)
+			o.Fail("C19.play.all-ids", "HandleGame panicked (%s) on clientbound packet id %s with body %s", clip(f[3]), f[1], clip(f[2]))
+		}
+	}
+	o.Eval("play.all-ids.random", true, fmt.Sprintf("seed=%d n=%d", seed, n))
+	if werr != nil || len(lines) == 0 || lines[len(lines)-1] != "DONE" {
+		first := strings.SplitN(strings.TrimSpace(errb.String()), "\n", 2)[0]
+		o.Fail("C19.play.all-ids", "fatal: the bot process died (%v; %s) while dispatching %s", werr, clip(first), clip(last))
+	}
+}
+
 // Scenario A: every id with hostile / degenerate bodies on a pre-filled queue: an error is fine, a panic is not
 func allIDsDirect(o *hx.Out) {
 	guard := int32(packetid.ClientboundPacketIDGuard)
 	valid, _ := minimalBodies()
 	for id := int32(1); id < guard; id++ {
-		// (random bodies are not used here: a body that declares a huge pk.Array length makes Ary.ReadFrom
-		// allocate it up front and the process dies with `fatal error: out of memory`, which cannot be
-		// recovered in-process - reported to the owners of net/packet, see meta level_note)
+		// (random bodies run in a child process: allIDsRandom)
 		mixed := make([]byte, 40)
 		for i := range mixed {
 			mixed[i] = byte(i*37 + 11)
@@ -1695,14 +1788,7 @@ func allIDsDirect(o *hx.Out) {
 			bodies = append(bodies, v, v[:len(v)/2])
 		}
 		for bi, body := range bodies {
-			c := newFullClient()
-			qr := queue.NewLinkedQueue[pk.Packet]()
-			qr.Push(pk.Packet{ID: id, Data: append([]byte{}, body...)})
-			qr.Close()
-			c.Conn = bot.VerifC19NewConnOn(mcnet.WrapConn(&scriptConn{}), qr, queue.NewLinkedQueue[pk.Packet](), errEnd)
-			var err error
-			pan := hx.Try(func() { err = c.HandleGame() })
-			_ = err
+			pan := runOneDirect(id, body)
 			o.Eval("play.all-ids.direct", true, fmt.Sprintf("id=%d body=%d", id, bi))
 			if pan != "" {
 				o.Fail("C19.play.all-ids", "HandleGame panicked (%s) on clientbound packet id %d (%v) with body %s", clip(pan), id, packetid.ClientboundPacketID(id), clip(hx.Hex(body)))
@@ -2011,6 +2097,10 @@ func genPlay(r *hx.Rng, thr int, ids []int32, big bool) []playPkt {
 }
 
 func main() {
+	if os.Getenv(childEnv) != "" {
+		childAllIDs()
+		return
+	}
 	o := hx.Open()
 	defer o.Close()
 	r := o.R
@@ -2211,6 +2301,7 @@ func main() {
 	lap("close")
 	// ---- every clientbound play packet id against a bot with every module attached
 	allIDsDirect(o)
+	allIDsRandom(o)
 	for _, thr := range []int{-1, 64} {
 		allIDsSession(o, thr)
 	}
